@@ -107,6 +107,7 @@ type c05SignReq struct {
 	wscript  []byte
 	key      [33]byte // untweaked key the signature is requested for
 	digest   [32]byte // musig: message signed
+	combined *btcec.PublicKey // musig: the session's (tweaked) aggregate key = taproot output key signed for
 }
 
 type c05Signer struct {
@@ -115,8 +116,9 @@ type c05Signer struct {
 	byPub map[[33]byte]*btcec.PrivateKey
 	byIdx map[uint32]*btcec.PrivateKey
 	musig *input.MusigSessionManager
-	// session -> local key
-	sessKey map[[32]byte][33]byte
+	// session -> local key / aggregate key
+	sessKey  map[[32]byte][33]byte
+	sessComb map[[32]byte]*btcec.PublicKey
 
 	calls  int
 	failAt int
@@ -130,7 +132,8 @@ func newC05Signer(trace *[]string) *c05Signer {
 	s := &c05Signer{
 		byPub:   map[[33]byte]*btcec.PrivateKey{},
 		byIdx:   map[uint32]*btcec.PrivateKey{},
-		sessKey: map[[32]byte][33]byte{},
+		sessKey:  map[[32]byte][33]byte{},
+		sessComb: map[[32]byte]*btcec.PublicKey{},
 		failAt:  -1,
 		trace:   trace,
 	}
@@ -244,6 +247,7 @@ func (s *c05Signer) MuSig2CreateSession(_ context.Context,
 	if p, ok := s.byIdx[loc.Index]; ok {
 		s.sessKey[info.SessionID] = c05Raw(p.PubKey())
 	}
+	s.sessComb[info.SessionID] = info.CombinedKey
 	return info, nil
 }
 
@@ -264,7 +268,7 @@ func (s *c05Signer) MuSig2Sign(_ context.Context, id [32]byte, msg [32]byte,
 		return nil, err
 	}
 	s.log = append(s.log, c05SignReq{
-		kind: "musig", digest: msg, key: s.sessKey[id],
+		kind: "musig", digest: msg, key: s.sessKey[id], combined: s.sessComb[id],
 	})
 	b, err := input.SerializePartialSignature(ps)
 	if err != nil {
@@ -431,9 +435,9 @@ type c05Stream struct {
 func (s *c05Stream) Send(m *auctioneerrpc.ClientAuctionMessage) error {
 	switch x := m.Msg.(type) {
 	case *auctioneerrpc.ClientAuctionMessage_Sign:
-		s.w.trace = append(s.w.trace, fmt.Sprintf("send:%d", len(x.Sign.AccountSigs)))
-		s.signs = append(s.signs, x.Sign)
 		d, _ := s.w.dbTok()
+		s.w.trace = append(s.w.trace, fmt.Sprintf("send:%d@%s", len(x.Sign.AccountSigs), d))
+		s.signs = append(s.signs, x.Sign)
 		s.dbAtSend = append(s.dbAtSend, d)
 		if s.failSign {
 			return errC05Injected
@@ -525,7 +529,7 @@ type c05World struct {
 	fm      *funding.Manager
 	stream  *c05Stream
 	rec     *c05RecMgr
-	handler *pool.VerifSignHandler
+	handler *pool.VerifC05Handler
 	accts   []*c05Acct
 	nodes   [][33]byte
 	trace   []string
@@ -609,7 +613,7 @@ func newC05World(r *Run, c *c05Case) (*c05World, error) {
 
 		value := btcutil.Amount(2_000_000 + 10_000*i)
 		if c.Small == i+1 {
-			value = btcutil.Amount(order.SupplyUnit(c05ChanUnits).ToSatoshis()) + 1500
+			value = btcutil.Amount(order.SupplyUnit(c05ChanUnits).ToSatoshis()) - 600
 		}
 		acct := &account.Account{
 			Value:  value,
@@ -693,8 +697,8 @@ func (w *c05World) wireHandler() {
 		BaseClient:       c05Base{},
 		BatchStepTimeout: 2 * time.Second,
 	})
-	w.handler = pool.NewVerifSignHandler(
-		w.db, w.fm, w.rec, auctioneer.NewVerifSignClient(w.stream),
+	w.handler = pool.VerifC05NewHandler(
+		w.db, w.fm, w.rec, auctioneer.VerifC05NewClient(w.stream),
 	)
 }
 
@@ -765,6 +769,7 @@ type c05Prop struct {
 	node   int
 	variant string // honest | noinput:<k> | badver | badheight | badbal | nochan | nosnap
 	up     int    // account upgraded to taproot in this batch (0 = none)
+	ext    int    // account whose expiry the auctioneer extends in this batch (0 = none)
 	extra  int    // value of an extra (auctioneer) output: varies the tx between re-proposals
 }
 
@@ -892,6 +897,10 @@ func (w *c05World) buildBatch(p *c05Prop) (*order.Batch, string, bool, error) {
 		if p.up == k && acct.Version == account.VersionInitialNoVersion {
 			diff.NewVersion = account.VersionTaprootEnabled
 		}
+		if p.ext == k {
+			// the auctioneer extends the account (a lease outliving it)
+			diff.NewExpiry = acct.Expiry + 1000
+		}
 		if p.variant == "badbal" && k == p.accts[0] {
 			diff.EndingBalance++
 			valid = false
@@ -901,6 +910,9 @@ func (w *c05World) buildBatch(p *c05Prop) (*order.Batch, string, bool, error) {
 			diff.EndingState = auctioneerrpc.AccountDiff_OUTPUT_RECREATED
 			cp := acct.Copy()
 			cp.Version = diff.NewVersion
+			if diff.NewExpiry != 0 {
+				cp.Expiry = diff.NewExpiry
+			}
 			script, err := cp.NextOutputScript()
 			if err != nil {
 				return nil, "", false, err
@@ -912,6 +924,13 @@ func (w *c05World) buildBatch(p *c05Prop) (*order.Batch, string, bool, error) {
 			newOp = "@" // filled in below, once the tx is complete
 		} else {
 			diff.EndingState = auctioneerrpc.AccountDiff_OUTPUT_FULLY_SPENT
+			// a used-up account keeps its script but is stored with
+			// the (dust) ending balance as its value
+			if cur, err := acct.Output(); err == nil {
+				newOut = strconv.Itoa(c05Out(w, &wire.TxOut{
+					Value: int64(diff.EndingBalance), PkScript: cur.PkScript,
+				}))
+			}
 		}
 		batch.AccountDiffs = append(batch.AccountDiffs, diff)
 		diffToks = append(diffToks, fmt.Sprintf("%d:%s:%d:%s", a.id, newOp, diff.NewVersion, newOut))
@@ -1046,9 +1065,13 @@ func (w *c05World) exec(c *c05Case) {
 			p.accts = c05Ints(kv["accts"])
 			p.node, _ = strconv.Atoi(kv["node"])
 			p.up, _ = strconv.Atoi(kv["up"])
+			p.ext, _ = strconv.Atoi(kv["ext"])
 			p.extra, _ = strconv.Atoi(kv["extra"])
 			if p.node < 1 || p.node > 3 || len(p.accts) == 0 {
 				continue
+			}
+			if p.ext != 0 {
+				r.Count("prop/extends-account")
 			}
 			batch, line, _, err := w.buildBatch(p)
 			if err != nil {
@@ -1303,7 +1326,7 @@ func (w *c05World) execSign(c *c05Case, kv map[string]string,
 	// canonical description of what was signed, from the signer's log
 	out := res
 	if res == "ok" {
-		out += " " + w.sigTokens(pending, sigs)
+		out += " " + w.sigTokens(pending, sigs) + " rows=" + w.rowTokens(pending, snap)
 	}
 	w.emit(line, out+w.tail())
 
@@ -1375,6 +1398,7 @@ func (w *c05World) execSign(c *c05Case, kv map[string]string,
 				bad("staged snapshot misses an order of the batch", "C05/not-staged-at-return")
 			}
 		}
+		w.checkStaged(lb, snap, bad)
 	}
 	if kv["reopen"] == "1" {
 		r.Count("sign/reopen-check")
@@ -1500,10 +1524,136 @@ func (w *c05World) execHandlerTail(kv map[string]string, pending *order.Batch, p
 	}
 	*signOK = true
 	*stagedAfterOK = true
+	if _, snap := w.dbTok(); snap != nil && snap.BatchID == w.lastOK.ID {
+		w.checkStaged(w.lastOK, snap, bad)
+	}
 	if len(sent) != len(w.lastOK.AccountDiffs) {
 		bad(fmt.Sprintf("sent %d signatures for a batch with %d account diffs", len(sent), len(w.lastOK.AccountDiffs)), "C05/sig-set")
 	}
 	w.checkSigs(w.lastOK, sent, sentNonces, sessions, bad)
+}
+
+// rowTokens renders the staged account rows in the order of the pending
+// batch's diffs: key:outpoint:version:out (out only for re-created accounts).
+func (w *c05World) rowTokens(pending *order.Batch, snap *clientdb.LocalBatchSnapshot) string {
+	if pending == nil || snap == nil {
+		return "?"
+	}
+	var rows []string
+	for _, d := range pending.AccountDiffs {
+		a := w.acctByRaw(d.AccountKeyRaw)
+		st, ok := snap.Accounts[d.AccountKeyRaw]
+		if a == nil || !ok {
+			rows = append(rows, "?")
+			continue
+		}
+		out := "-"
+		if st.State == account.StatePendingBatch {
+			if o, err := st.Output(); err == nil {
+				out = strconv.Itoa(c05Out(w, o))
+			}
+		}
+		rows = append(rows, fmt.Sprintf("%d:%d:%d:%s", a.id, c05Outpoint(w, st.OutPoint), st.Version, out))
+	}
+	return c05Csv(rows)
+}
+
+// checkStaged evaluates "the batch's account and order updates have been
+// staged": WHAT is staged for every account and order of the verified batch
+// must be what that batch says - the staged account describes the output the
+// batch transaction really creates for it (or stays on the spent output when
+// the account is used up), the staged order carries the units left.
+func (w *c05World) checkStaged(lb *order.Batch, snap *clientdb.LocalBatchSnapshot, bad func(what, key string)) {
+	r := w.r
+	txid := lb.BatchTX.TxHash()
+	for _, d := range lb.AccountDiffs {
+		a := w.acctByRaw(d.AccountKeyRaw)
+		st, ok := snap.Accounts[d.AccountKeyRaw]
+		pre, err := w.db.Account(a.pub) // the main bucket is untouched by staging
+		if !ok || err != nil {
+			continue
+		}
+		fail := func(what string) {
+			bad(fmt.Sprintf("staged update of account %d does not match the verified batch: %s", a.id, what),
+				"C05/staged-content")
+		}
+		if st.Value != d.EndingBalance {
+			fail(fmt.Sprintf("value %d, ending balance %d", st.Value, d.EndingBalance))
+		}
+		if st.LatestTx == nil || st.LatestTx.TxHash() != txid {
+			fail("latest tx is not the batch tx")
+		}
+		if st.HeightHint != lb.HeightHint {
+			fail("height hint")
+		}
+		if d.EndingState == auctioneerrpc.AccountDiff_OUTPUT_RECREATED {
+			r.Count("staged/recreated")
+			if st.State != account.StatePendingBatch {
+				fail(fmt.Sprintf("state %v", st.State))
+			}
+			want := wire.OutPoint{Hash: txid, Index: uint32(d.OutpointIndex)}
+			if st.OutPoint != want {
+				fail(fmt.Sprintf("outpoint %v, want %v", st.OutPoint, want))
+			}
+			wantExpiry := pre.Expiry
+			if d.NewExpiry != 0 {
+				wantExpiry = d.NewExpiry
+			}
+			if st.Expiry != wantExpiry {
+				fail(fmt.Sprintf("expiry %d, want %d", st.Expiry, wantExpiry))
+			}
+			wantVer := pre.Version
+			if d.NewVersion > wantVer {
+				wantVer = d.NewVersion
+			}
+			if st.Version != wantVer {
+				fail(fmt.Sprintf("version %d, want %d", st.Version, wantVer))
+			}
+			if !st.BatchKey.IsEqual(poolscript.IncrementKey(pre.BatchKey)) {
+				fail("batch key is not the stored key incremented once")
+			}
+			// the decisive one: the staged account must describe the
+			// output the batch transaction creates for it
+			o, err := st.Output()
+			txo := lb.BatchTX.TxOut[d.OutpointIndex]
+			if err != nil || o.Value != txo.Value || !bytes.Equal(o.PkScript, txo.PkScript) {
+				fail("its script/value is not the output of the batch tx at its staged outpoint")
+			}
+		} else {
+			r.Count("staged/closed")
+			if st.State != account.StatePendingClosed {
+				fail(fmt.Sprintf("state %v", st.State))
+			}
+			if st.OutPoint != pre.OutPoint || !st.BatchKey.IsEqual(pre.BatchKey) ||
+				st.Expiry != pre.Expiry || st.Version != pre.Version {
+
+				fail("a used-up account must stay on the output the batch spends")
+			}
+		}
+	}
+	for n, ms := range lb.MatchedOrders {
+		so, ok := snap.Orders[n]
+		pre, err := w.db.GetOrder(n)
+		if !ok || err != nil {
+			continue
+		}
+		left := pre.Details().UnitsUnfulfilled
+		for _, m := range ms {
+			left -= m.UnitsFilled
+		}
+		if so.Details().UnitsUnfulfilled != left {
+			bad(fmt.Sprintf("staged order %x has %d units unfulfilled, the verified batch leaves %d", n[:2],
+				so.Details().UnitsUnfulfilled, left), "C05/staged-content")
+		}
+		wantState := order.StatePartiallyFilled
+		if left == 0 || left < pre.Details().MinUnitsMatch {
+			wantState = order.StateExecuted
+		}
+		if so.Details().State != wantState {
+			bad(fmt.Sprintf("staged order %x has state %v, want %v", n[:2], so.Details().State, wantState),
+				"C05/staged-content")
+		}
+	}
 }
 
 // sigTokens renders the released signatures as the messages they are over:
@@ -1552,9 +1702,19 @@ func (w *c05World) sigTokens(pending *order.Batch, sigs order.BatchSignature) st
 					}
 				}
 			}
+			// the output the MuSig2 session's aggregate key pays to: the
+			// account output this partial signature can help to spend
+			forOut := "?"
+			if a != nil && q.combined != nil {
+				if acct, err := w.db.Account(a.pub); err == nil {
+					if pk, err := txscript.PayToTaprootScript(q.combined); err == nil {
+						forOut = strconv.Itoa(c05Out(w, &wire.TxOut{Value: int64(acct.Value), PkScript: pk}))
+					}
+				}
+			}
 			if idx >= 0 {
 				tids[c05Tid(w, pending.BatchTX)] = true
-				rows = append(rows, row{k, fmt.Sprintf("%d:%d:t:%d", k, idx, txscript.SigHashDefault)})
+				rows = append(rows, row{k, fmt.Sprintf("%d:%d:t:%d:%s", k, idx, txscript.SigHashDefault, forOut)})
 			} else {
 				rows = append(rows, row{k, fmt.Sprintf("%d:x:t:?", k)})
 			}
@@ -1810,8 +1970,12 @@ func c05Gen(r *Run) *c05Case {
 			if r.Rng.Intn(4) == 0 {
 				up = accts[r.Rng.Intn(len(accts))]
 			}
-			c.Cmds = append(c.Cmds, fmt.Sprintf("prop id=%d accts=%s node=%d var=%s up=%d extra=%d",
-				id, c05JoinInts(accts), node, variant, up, r.Rng.Intn(1000)))
+			ext := 0
+			if r.Rng.Intn(3) == 0 {
+				ext = accts[r.Rng.Intn(len(accts))]
+			}
+			c.Cmds = append(c.Cmds, fmt.Sprintf("prop id=%d accts=%s node=%d var=%s up=%d ext=%d extra=%d",
+				id, c05JoinInts(accts), node, variant, up, ext, r.Rng.Intn(1000)))
 			if variant == "honest" || strings.HasPrefix(variant, "noinput") || variant == "nosnap" {
 				curID = id
 				curAccts = accts
